@@ -445,7 +445,10 @@ pub fn run_c07(tier: Tier) -> ! {
         plans.push(Plan { label: format!("1p in{i} out{q}"), cfg, depth: tier.pick(8, 14), max_states: tier.pick(150_000, 3_000_000), secs: tier.pick(60.0, 2400.0) });
     }
     for retry in tier.pick(vec![1u8], vec![1, 2, 3]) {
-        let mut cfg = base_cfg(vec![PeriphCfg::simple(9, 2, 1)], Mon::C07, std_acts(1, &mal1, true));
+        let mut a1 = std_acts(1, &mal1, true);
+        // user call: reset_address() (to the same address) at any point, also with a request outstanding
+        a1.push(Act::ResetAddr(0));
+        let mut cfg = base_cfg(vec![PeriphCfg::simple(9, 2, 1)], Mon::C07, a1);
         cfg.rig.max_retry = retry;
         plans.push(Plan { label: format!("1p retry{retry}"), cfg, depth: tier.pick(10, 30), max_states: tier.pick(150_000, 3_000_000), secs: tier.pick(60.0, 2400.0) });
     }
